@@ -166,16 +166,24 @@ def bool_term(expr, symbol=None, negate=False):
         def inner_symbol(node, _var=var):
             return symbol(node)
         body = bool_term(comp.elt, inner_symbol, negate)
-        # bound variable renamed positionally
-        body = _rename(body, var, '$%s' % 'x')
+        # bound variable renamed by nesting height (names of loop variables do not matter)
+        body = _rename(body, var, '_b%d' % _height(body))
         return (kind, symbol(gen.iter), body)
     if isinstance(expr, ast.Call) and isinstance(expr.func, ast.Name) and \
             expr.func.id in ('all', 'any') and len(expr.args) == 1:
         kind = expr.func.id
         if negate:
             kind = 'any' if kind == 'all' else 'all'
-        return (kind, symbol(expr.args[0]), ('atom', '$x', not negate))
+        return (kind, symbol(expr.args[0]), ('atom', '_b0', not negate))
     return ('atom', symbol(expr), not negate)
+
+
+def _height(term) -> int:
+    if term[0] in ('and', 'or'):
+        return max([_height(t) for t in term[1]] or [0])
+    if term[0] in ('all', 'any'):
+        return _height(term[2]) + 1
+    return 0
 
 
 def _rename(term, old: str, new: str):
@@ -241,3 +249,143 @@ def complement_bool(a, b, symbol=None) -> bool:
     if isinstance(b, str):
         b = ast.parse(b, mode='eval').body
     return bool_term(a, symbol) == bool_term(b, symbol, negate=True)
+
+
+# ------------------------------------------------ semantic boolean equivalence
+def _canon_quant(term):
+    """('any', d, body) == not ('all', d, not body): canonical (atom, positive) pair"""
+    if term[0] == 'any':
+        return ('all', term[1], _negate(term[2])), False
+    return term, True
+
+
+def _negate(term):
+    kind = term[0]
+    if kind == 'const':
+        return ('const', not term[1])
+    if kind == 'atom':
+        return ('atom', term[1], not term[2])
+    if kind == 'cmp':
+        return ('cmp', _CMP_NEG[term[1]], term[2], term[3])
+    if kind == 'and':
+        return ('or', frozenset(_negate(t) for t in term[1]))
+    if kind == 'or':
+        return ('and', frozenset(_negate(t) for t in term[1]))
+    if kind == 'all':
+        return ('any', term[1], _negate(term[2]))
+    if kind == 'any':
+        return ('all', term[1], _negate(term[2]))
+    raise ValueError(term)
+
+
+def _atoms(term, out):
+    kind = term[0]
+    if kind == 'const':
+        return
+    if kind in ('and', 'or'):
+        for sub in term[1]:
+            _atoms(sub, out)
+        return
+    if kind == 'atom':
+        out.add(('atom', term[1]))
+    elif kind == 'cmp':
+        op, left, right = term[1], term[2], term[3]
+        # canonical positive operator
+        if op in ('>=', '!=', 'is not', 'not in', '>'):
+            op = _CMP_NEG[op]
+        out.add(('cmp', op, left, right))
+    else:
+        canon, _positive = _canon_quant(term)
+        out.add(canon)
+
+
+def _evaluate(term, env) -> bool:
+    kind = term[0]
+    if kind == 'const':
+        return term[1]
+    if kind == 'and':
+        return all(_evaluate(t, env) for t in term[1])
+    if kind == 'or':
+        return any(_evaluate(t, env) for t in term[1])
+    if kind == 'atom':
+        return env[('atom', term[1])] == term[2]
+    if kind == 'cmp':
+        op, left, right = term[1], term[2], term[3]
+        positive = True
+        if op in ('>=', '!=', 'is not', 'not in', '>'):
+            op, positive = _CMP_NEG[op], False
+        return env[('cmp', op, left, right)] == positive
+    canon, positive = _canon_quant(term)
+    return env[canon] == positive
+
+
+def equivalent_terms(a, b) -> bool:
+    """truth-table equivalence of two normal-form terms over their (opaque) atoms"""
+    atoms = set()
+    _atoms(a, atoms)
+    _atoms(b, atoms)
+    atoms = sorted(atoms, key=repr)
+    if len(atoms) > 16:
+        return a == b
+    for bits in itertools.product((False, True), repeat=len(atoms)):
+        env = dict(zip(atoms, bits))
+        if _evaluate(a, env) != _evaluate(b, env):
+            return False
+    return True
+
+
+def function_predicate(fn_node, symbol=None, aliases=None):
+    """
+    boolean term computed by a function made of local assignments, if/elif/else chains and
+    return statements (the value of the function as one formula)
+    """
+    aliases = dict(aliases or {})
+
+    def expand(expr):
+        import copy
+
+        class Sub(ast.NodeTransformer):
+            def visit_Name(self, node):
+                if isinstance(node.ctx, ast.Load) and node.id in aliases:
+                    return copy.deepcopy(aliases[node.id])
+                return node
+        return Sub().visit(copy.deepcopy(expr))
+
+    def block(stmts):
+        """term of a statement list, or None if it falls through without returning"""
+        for index, stmt in enumerate(stmts):
+            if isinstance(stmt, ast.Expr) and isinstance(stmt.value, ast.Constant):
+                continue
+            if isinstance(stmt, ast.Assign) and len(stmt.targets) == 1 and \
+                    isinstance(stmt.targets[0], ast.Name):
+                aliases[stmt.targets[0].id] = expand(stmt.value)
+                continue
+            if isinstance(stmt, ast.Return):
+                if stmt.value is None:
+                    return ('const', False)
+                return bool_term(expand(stmt.value), symbol)
+            if isinstance(stmt, ast.If):
+                cond = bool_term(expand(stmt.test), symbol)
+                rest = stmts[index + 1:]
+                then = block(stmt.body + rest) if not _always_returns(stmt.body) \
+                    else block(stmt.body)
+                other = block(stmt.orelse + rest) if not _always_returns(stmt.orelse) \
+                    else block(stmt.orelse)
+                if then is None or other is None:
+                    return None
+                return _junction('or', [_junction('and', [cond, then]),
+                                        _junction('and', [_negate(cond), other])])
+            return None
+        return None
+
+    return block(list(fn_node.body))
+
+
+def _always_returns(stmts) -> bool:
+    for stmt in stmts:
+        if isinstance(stmt, (ast.Return, ast.Raise)):
+            return True
+        if isinstance(stmt, ast.If) and stmt.orelse and _always_returns(stmt.body) and \
+                _always_returns(stmt.orelse):
+            return True
+    return False
